@@ -116,3 +116,77 @@ theorem doOp_pre (c : Ctx) (s s' : Driver.St) (op : Op) (cmds : List Cmd) (hs : 
     rw [← h.1]; exact ⟨hs, rfl⟩
 
 end MpfVerif.C08
+
+namespace MpfVerif.C08
+open MpfVerif.Py MpfVerif.Driver
+
+/-- number of registered software timers -/
+def pending (s : Driver.St) : Nat := (if s.timedDisable.isSome then 1 else 0) + (if s.limitDue.isSome then 1 else 0)
+
+theorem doDisable_fields (s : Driver.St) :
+    (doDisable s).1.timedDisable = s.timedDisable ∧ (doDisable s).1.limitDue = none ∧ (doDisable s).1.now = s.now ∧
+      (doDisable s).1.softOn = false := by simp [doDisable]
+
+/-- firing at a time at which the earliest timer is due removes at least one timer and keeps `Pre` -/
+theorem fireDue_pending (s : Driver.St) (d : Nat) (hn : nextDue s = some d) (hd : d ≤ s.now) :
+    pending (fireDue s).1 < pending s := by
+  unfold fireDue pending nextDue at *
+  cases htd : s.timedDisable with
+  | none =>
+    cases hl : s.limitDue with
+    | none => simp [htd, hl] at hn
+    | some l =>
+      simp only [htd, hl, Option.some.injEq] at hn
+      subst hn
+      simp [htd, hl, hd, doDisable]
+  | some a =>
+    cases hl : s.limitDue with
+    | none =>
+      simp only [htd, hl, Option.some.injEq] at hn
+      subst hn
+      simp [htd, hl, hd, doDisable]
+    | some l =>
+      simp only [htd, hl, Option.some.injEq] at hn
+      by_cases ha : a ≤ s.now
+      · simp [htd, hl, ha, doDisable]
+      · have hl' : l ≤ s.now := by omega
+        simp [htd, hl, ha, hl', doDisable]
+
+theorem fireDue_pre (s : Driver.St) (h : Pre s) : Pre (fireDue s).1 := (fireDue_inv s h).1.pre
+
+/-- running the clock to `target` with enough fuel re-establishes the invariant at `target` -/
+theorem advanceTo_inv (fuel : Nat) (s : Driver.St) (target : Nat) (h : Pre s) (hf : pending s < fuel)
+    (ht : s.now ≤ target) : TimerInv (advanceTo fuel s target).1 := by
+  induction fuel generalizing s with
+  | zero => omega
+  | succ f ih =>
+    unfold advanceTo
+    cases hn : nextDue s with
+    | none =>
+      simp only []
+      intro hs
+      have := h hs
+      unfold nextDue at hn
+      cases htd : s.timedDisable <;> cases hl : s.limitDue <;> simp_all
+    | some d =>
+      simp only []
+      by_cases hd : d ≤ target
+      · simp only [hd, if_true]
+        have hpre : Pre { s with now := max d s.now } := h
+        have hlt := fireDue_pending { s with now := max d s.now } d (by simpa [nextDue] using hn) (by simp; omega)
+        have hnow := (fireDue_inv { s with now := max d s.now } hpre).2
+        have : pending { s with now := max d s.now } = pending s := rfl
+        exact ih _ (fireDue_pre _ hpre) (by omega) (by rw [hnow]; simp; omega)
+      · simp only [hd, if_false]
+        intro hs
+        have hsome := h hs
+        unfold nextDue at hn
+        cases htd : s.timedDisable with
+        | none => simp [htd] at hsome
+        | some a =>
+          refine ⟨a, by simp [htd], ?_⟩
+          cases hl : s.limitDue <;> simp [htd, hl] at hn <;> simp <;> omega
+
+theorem pending_le_two (s : Driver.St) : pending s ≤ 2 := by unfold pending; split <;> split <;> omega
+
+end MpfVerif.C08
